@@ -17,7 +17,7 @@ import (
 // location is ever written, every pair of accesses is read/read: no data race under any schedule,
 // and each goroutine computes what it computes alone.
 
-func vfC17Use(f *Font) {
+func vfC17Use(f *Font, fewGlyphs bool) {
 	face := NewFace(f)
 	nGlyphs := f.nGlyphs
 	switch vfChoice("settings", 4) {
@@ -36,6 +36,10 @@ func vfC17Use(f *Font) {
 	g, _ := face.NominalGlyph(r)
 	_ = g
 	gid := GID(vfInt("gid", 0, nGlyphs+1))
+	if fewGlyphs {
+		// charstring interpretation on a symbolic glyph index does not scale: a handful of glyph ids, case-split
+		gid = [...]GID{0, 1, 2, GID(nGlyphs - 1), GID(nGlyphs)}[vfChoice("gidChoice", 5)]
+	}
 	switch vfChoice("query", 8) {
 	case 0:
 		face.HorizontalAdvance(gid)
@@ -70,5 +74,17 @@ func VfH_C17_confine() {
 	f, err := NewFont(ld)
 	vfAssume(err == nil)
 	vfFreezeAll()
-	vfC17Use(f)
+	vfC17Use(f, false)
+}
+
+// H-C17-confine-cff: the same with a static CFF ('OTTO') font: the extents, outlines and names then run
+// through the charstring interpreter and the CFF name tables.
+func VfH_C17_confine_cff() {
+	ld, err := ot.NewLoader(bytes.NewReader(vfCffFontBytes))
+	vfAssume(err == nil)
+	f, err := NewFont(ld)
+	vfAssume(err == nil)
+	vfCover("is-cff", f.cff != nil)
+	vfFreezeAll()
+	vfC17Use(f, true)
 }
